@@ -322,19 +322,70 @@ where
     ScanParams: DeserializeOwned,
     PageSelector: DeserializeOwned,
 {
-    let raw_params = BTreeMap::<String, String>::deserialize(deserializer)?;
+    let raw_pairs = RawParams::deserialize(deserializer)?.0;
 
-    match raw_params.get("page_token") {
-        Some(page_token) => {
+    let mut page_tokens =
+        raw_pairs.iter().filter(|(name, _)| name == "page_token");
+    match page_tokens.next() {
+        Some((_, page_token)) => {
+            if page_tokens.next().is_some() {
+                return Err(serde::de::Error::duplicate_field("page_token"));
+            }
             let page_start = deserialize_page_token(&page_token)
                 .map_err(serde::de::Error::custom)?;
             Ok(WhichPage::Next(page_start))
         }
         None => {
+            // As with any other query parameters, a parameter that appears
+            // more than once is an error rather than a silent choice of one
+            // of the values.
+            let mut raw_params = BTreeMap::new();
+            for (name, value) in raw_pairs {
+                if raw_params.contains_key(&name) {
+                    return Err(serde::de::Error::custom(format!(
+                        "duplicate field `{}`",
+                        name
+                    )));
+                }
+                raw_params.insert(name, value);
+            }
             let scan_params =
                 from_map(&raw_params).map_err(serde::de::Error::custom)?;
             Ok(WhichPage::First(scan_params))
         }
+    }
+}
+
+/// The query parameters as given, in order, including any repeated ones
+struct RawParams(Vec<(String, String)>);
+
+impl<'de> Deserialize<'de> for RawParams {
+    fn deserialize<D: Deserializer<'de>>(
+        deserializer: D,
+    ) -> Result<Self, D::Error> {
+        struct RawParamsVisitor;
+        impl<'de> serde::de::Visitor<'de> for RawParamsVisitor {
+            type Value = RawParams;
+
+            fn expecting(
+                &self,
+                formatter: &mut std::fmt::Formatter,
+            ) -> std::fmt::Result {
+                formatter.write_str("a map of query parameters")
+            }
+
+            fn visit_map<A: serde::de::MapAccess<'de>>(
+                self,
+                mut map: A,
+            ) -> Result<RawParams, A::Error> {
+                let mut pairs = Vec::new();
+                while let Some(pair) = map.next_entry::<String, String>()? {
+                    pairs.push(pair);
+                }
+                Ok(RawParams(pairs))
+            }
+        }
+        deserializer.deserialize_map(RawParamsVisitor)
     }
 }
 
